@@ -201,6 +201,21 @@ CLAIMED = {
                  "if refused at run time the two syscall-level sub-checks are skipped and counted and the named-site sub-check still runs. asserting_* aborts are documented exits and not asserted for temp cleanup."),
         "design_ref": "DESIGN.md section 4 C19",
     },
+    "C20": {
+        "level": "exploration",
+        "technique": "model-based property testing over generated routing histories: partition model + byte differential against the single-target writer + independent well-formedness readers",
+        "text": ("Hypothesis generates routing histories (target, record) with 1-7 targets (random revisits) or 257/300/600 targets (round-robin 2-4 rounds, "
+                 "'first target again after T others', alternation around the 256-handle boundary) and routes them through split -g/-n/-m/-a with "
+                 "--prefix/--suffix/--folder/-j, the tee verb (-a, -p), DSL tee/emit/emitp/emitf/print/printn/dump with > >> | and computed names incl. spaces, "
+                 "quotes and non-ASCII, in csv/tsv/json/jsonl/dkvp/xtab/pprint/nidx, at batch sizes 1/2/500, followed by nothing, cat or head; append modes onto "
+                 "pre-existing files; `tee then head` on 30000/4000 line-oriented records (tee must still write everything). Oracles: set of target files; each "
+                 "file byte-identical to `mlr --o<fmt> cat` (or a Python renderer for dkvp/nidx/jsonl) on exactly its routed records in stream order, after any "
+                 "pre-existing prefix; one header / one bracket pair by Python csv/json; main stream == same command without the routing statement."),
+        "note": ("Known finding (matched by an exact predicate, still counted): beyond 256 targets an evicted target is re-opened with a fresh writer, so header/bracket "
+                 "formats repeat the header/brackets; dkvp/nidx/jsonl beyond capacity are asserted byte-exactly, so lost/misrouted/truncated records there are still caught. "
+                 "Pipe targets are limited to 7. Early-exit completeness is timing-dependent and sampled (2 attempts, one on GOMAXPROCS=1)."),
+        "design_ref": "DESIGN.md section 4 C20",
+    },
 }
 
 NOT_YET = "check not built yet in this session (see DESIGN.md section 8 build order); will be claimed when its sub-checks run"
